@@ -12,6 +12,13 @@ import string as _string
 _EXT_CONSTS = {"string.hexdigits": _string.hexdigits, "string.digits": _string.digits, "string.ascii_letters": _string.ascii_letters}
 
 
+def _subterms(t):
+    yield t
+    if isinstance(t, App):
+        for x in t.args:
+            yield from _subterms(x)
+
+
 class Unknown(Exception):
     pass
 
@@ -177,6 +184,77 @@ def teval(t: Term, env: dict):
             if all(teval(c, env2) for c in conds.args):
                 out.append(teval(body, env2))
         return out
+    if op == "loopout" and len(a) == 3 and "__loops__" in env:
+        # the value a name has after a loop: fold the per-iteration values of all names the loop carries over the items of the
+        # loop's iterable.  `for x in xs` where the body mutates xs itself walks the live list by index, as Python does.
+        name, line, val = a
+        info = env["__loops__"].get(line.v)
+        if info is None:
+            raise Unknown("loop not known")
+        it, iter_name = info
+        carried = dict(env.get("__loopouts__", {}).get(line.v, {}))
+        carried[name.v] = val
+        inits, states = {}, {}
+        for n_, v_ in carried.items():
+            lvs = [s_ for s_ in _subterms(v_) if isinstance(s_, App) and s_.op == "loopvar" and s_.args[1] == line]
+            for lv in lvs:
+                inits.setdefault(lv.args[0].v, []).append(lv)
+        for n_, lvs in inits.items():
+            states[n_] = ev(lvs[0].args[2])
+        if name.v not in states:
+            raise Unknown("loop-carried value without its initial value")
+        live = iter_name is not None and iter_name in states and iter_name in carried and inits[iter_name][0].args[2] == it
+        fixed = None if live else list(ev(it))
+        el = App("elem", (it,))
+        i = 0
+        while True:
+            seq = states[iter_name] if live else fixed
+            if i >= len(seq) or i > 10000:
+                break
+            item = seq[i]
+            i += 1
+            env2 = {**env, el: item}
+            for n_, lvs in inits.items():
+                for lv in lvs:
+                    env2[lv] = states[n_]
+            new = {}
+            for n_ in states:
+                new[n_] = teval(carried[n_], env2) if n_ in carried else states[n_]
+            states = new
+        return states[name.v]
+    if op == "mutated" and len(a) >= 2 and isinstance(a[1], Const):
+        base = ev(a[0])
+        args = [ev(x) for x in a[2:]]
+        try:
+            if isinstance(base, list):
+                new = list(base)
+            elif isinstance(base, dict):
+                new = dict(base)
+            elif isinstance(base, set):
+                new = set(base)
+            else:
+                raise Unknown(f"mutated {type(base).__name__}")
+            getattr(new, a[1].v)(*args)
+            return new
+        except Unknown:
+            raise
+        except Exception as e:
+            raise Unknown(f"mutated: {e}")
+    if op in ("meth:keys", "meth:values", "meth:items") and len(a) == 1:
+        try:
+            return list(getattr(ev(a[0]), op[5:])())
+        except Unknown:
+            raise
+        except Exception as e:
+            raise Unknown(f"{op}: {e}")
+    if op in ("listof", "call:list", "call:sorted", "call:tuple", "tupleof", "call:dict", "call:set") and len(a) == 1:
+        f = {"listof": list, "call:list": list, "call:sorted": sorted, "call:tuple": tuple, "tupleof": tuple, "call:dict": dict, "call:set": set}[op]
+        try:
+            return f(ev(a[0]))
+        except Unknown:
+            raise
+        except Exception as e:
+            raise Unknown(f"{op}: {e}")
     if op == "list":
         return [ev(x) for x in a]
     if op == "tuple":
